@@ -23,6 +23,20 @@ from typing import Any, Dict, List, Optional, Sequence, Tuple
 NASTY_FLOATS = [0.1 + 0.2, 1 / 3, 2 / 3, 0.1, 1e-3, 2.675, 1.0000000000000002, 123456.789e-5, 0.7, 1.1]
 RATIONALS = ['1/3', '7/3', '5/8', '2/3', '-1/3', '5/7', '22/7', '-7/4']     # exact constant fractions (as strings)
 POS_RATIONALS = ['1/3', '7/3', '5/8', '2/3', '5/7', '3/2']
+# loop ranges that differ only where CPython hashes collide: hash(-1) == hash(-2), hash(2**61) == hash(1),
+# hash(2**61 - 1) == hash(0)  (sympy Integers hash like ints)
+def colliding_ranges(n: str):
+    return [[(4, 0, -1), (4, 0, -2)],
+            [(n + ' + 3', 0, -1), (n + ' + 3', 0, -2)],
+            [(n + ' + 4', n, -1), (n + ' + 4', n, -2)],
+            [(-1, 3), (-2, 3)],
+            [(-1, 3, 2), (-2, 3, 2)],
+            [(3, -1, -1), (3, -2, -1)],
+            [(n, -1, -1), (n, -2, -1)],
+            [(0, 2 ** 61, 2 ** 60), (0, 1, 2 ** 60)],
+            [(0, 2 ** 61 - 1, 2 ** 60), (0, 0, 2 ** 60)]]
+
+
 WEIRD_IDS = ['pt %d', 'pt.%d', 'pt-%d', 'PT%d', u'pü%d', 'p_%d']
 
 
@@ -292,6 +306,9 @@ class Gen:
         n = self.par('n')
         rng_like = self.rng.choice([2, 3, (1, 3), (0, 4, 2), (3, 0, -1), (5, 0, -2), n, (n, n + ' + 2'),
                                     (0, n + '*2', 2), (n + ' + 3', n, -2), range(1, 4)])
+        if self.rng.random() < 0.4:
+            rng_like = self.rng.choice(self.rng.choice(colliding_ranges(n)))
+            self.count('with:hash-colliding-range')
         return self.Q['ForLoopPT'](body, index, rng_like, identifier=ident, measurements=self.meas(1),
                                    parameter_constraints=self.cons())
 
